@@ -633,6 +633,62 @@ let cmd_fstl (args : string list) : string =
     Stdlib.String.concat "|" (Stdlib.List.map signal_obs sigs)
   | _ -> "BADCASE"
 
+(* ---- ghwh <debug01> <path> ---- the header of a GHW file (strings, types, hierarchy) read by the model of
+   ghw/hierarchy.rs; prints the hierarchy the builder calls make, type names and enum tables per variable, the sub-range
+   table and the decode information *)
+let read_file_bytes (path : string) : BinNums.coq_N list =
+  let ic = open_in_bin path in
+  let n = in_channel_length ic in
+  let s = really_input_string ic n in
+  close_in ic;
+  bytes_of_string s
+
+let cmd_ghwh (args : string list) : string =
+  match args with
+  | [dbg; path] ->
+    let debug = dbg = "1" in
+    let (_, res) = get (GhwHier.ghw_read_header debug (read_file_bytes path)) in
+    let calls = res.GhwHier.ghr_calls in
+    let ops = Stdlib.List.concat_map FstHier.hier_op_of calls in
+    let b = get (Hierarchy.hier_run Hierarchy.hb_new ops) in
+    let enums = Stdlib.List.filter_map (fun c -> match c with FstHier.FcEnum (n, m) -> Some (n, m) | _ -> None) calls in
+    let vx = Stdlib.List.filter_map (fun c -> match c with
+      | FstHier.FcVar (_, _, _, _, _, _, en, tn) ->
+        Some ((match tn with None -> "~" | Some t -> hxo t) ^ "/" ^
+              (match en with None -> "~" | Some id ->
+                 let (n, m) = Stdlib.List.nth enums (int_of_nat id) in
+                 hxo n ^ "[" ^ Stdlib.String.concat "+" (Stdlib.List.map (fun (a, b) -> hxo a ^ ">" ^ hxo b) m) ^ "]"))
+      | _ -> None) calls in
+    let t = res.GhwHier.ghr_tracker in
+    let sl = Stdlib.List.map (fun a -> Printf.sprintf "%d:%d:%d:%d" (int_of_nat a.GhwAlias.ai_ref)
+               (int_of_nat a.GhwAlias.ai_msb) (int_of_nat a.GhwAlias.ai_lsb) (int_of_nat a.GhwAlias.ai_sliced)) t.GhwAlias.tr_aliases in
+    let sl = Stdlib.List.sort compare sl in
+    let hobs = Stdlib.String.map (fun c -> if c = ' ' then ',' else c) (hierarchy_obs b) in
+    Printf.sprintf "%s vx=%s slices=%s" hobs
+      (if vx = [] then "-" else Stdlib.String.concat ";" vx)
+      (if sl = [] then "-" else Stdlib.String.concat "," sl)
+  | _ -> "BADCASE"
+
+(* ---- ghwf <debug01> <path> ---- a whole GHW file: header, then the signal sections read with the header's decode
+   information; prints the time table and every signal that is not a sub-range of another one *)
+let cmd_ghwf (args : string list) : string =
+  match args with
+  | [dbg; path] ->
+    let debug = dbg = "1" in
+    let ((res, tpes), body) = get (GhwFile.ghw_read_file lz_compress !cap debug (read_file_bytes path)) in
+    (match body with
+     | None -> "ERR"
+     | Some (blocks, tt) ->
+       let t = res.GhwHier.ghr_tracker in
+       let alias_refs = Stdlib.List.map (fun a -> int_of_nat a.GhwAlias.ai_ref) t.GhwAlias.tr_aliases in
+       let obs = Stdlib.List.mapi (fun i tpe ->
+         if Stdlib.List.mem i alias_refs then ""
+         else
+           let s = get (WaveMem.load_signal lz_decompress blocks (nat_of_int i) tpe) in
+           Printf.sprintf " s%d=%s" i (signal_obs s)) tpes in
+       "tt=" ^ tt_obs tt ^ Stdlib.String.concat "" obs)
+  | _ -> "BADCASE"
+
 let dispatch (cmd : string) (args : string list) : string =
   match cmd with
   | "offsets" -> cmd_offsets args
@@ -651,6 +707,8 @@ let dispatch (cmd : string) (args : string list) : string =
   | "serde" -> cmd_serde args
   | "fsth" -> cmd_fsth args
   | "fstl" -> cmd_fstl args
+  | "ghwh" -> cmd_ghwh args
+  | "ghwf" -> cmd_ghwf args
   | _ -> "UNSUPPORTED"
 
 let () =
